@@ -13,14 +13,19 @@
           the `loopX16` iterations; `loopX8/X4/X2/X1` at most once; the 1..15-byte tail through the scratch block), with and
           without hashing, for ANY routine containing the ladder at any position (used for `sealAsm` and, later, `openAsm`);
           `ladN_is_cryptoBlocksAux`: `ladN` is `Model.GCM.cryptoBlocksAux`; `tag_is_finishTag`: `CalculateSPost` is `finishTag`;
-    * E4  **`sealAsm_eq_spec_nonce12`**: for all round keys, 12-byte nonces, additional data, plaintexts, tag sizes ≤ 16, initial
-          registers, old contents of the destination and of the scratch buffer: running the listing from its entry state returns
-          (`.ok`) and the destination holds ciphertext ‖ tag of `Spec.GCM.sealGCM` over the SM4 block function under these round keys.
-  NOT proved here: nonces of other lengths (the GHASH path of `calculateJ0`; instructions 634–813 of the listing) — the prefix theorem
-  `sealAsm_prefix_nonce12` and everything after instruction 823 do not depend on the nonce length, so the missing piece is exactly a
-  replacement of `phaseJ0_12` for the hash path.  `openAsm`: see Props/C07Asm.lean.
+    * E4  **`sealAsm_eq_spec`**: for all round keys, nonces of EVERY length (< 2^32; 12 bytes: the copy path, otherwise the GHASH
+          path of `calculateJ0`, `j0_is_calculateJ0`), additional data, plaintexts, tag sizes ≤ 16, initial registers, old contents
+          of the destination and of the scratch buffer: running the listing from its entry state returns (`.ok`) and the destination
+          holds ciphertext ‖ tag of `Spec.GCM.sealGCM` over the SM4 block function under these round keys.
+          (`sealAsm_eq_spec_nonce12` is the earlier special case, kept with its smaller fuel bound.)
+    * IN PLACE  **`sealAsm_inplace_eq_spec`**: the same on the entry state `sealStateInPlace` (SMGo/Model/ISAValGcmInPlace.lean) of the
+          call `Seal(buf[:0], nonce, buf, aad)`: the slots `dst` and `plaintext` hold the SAME address, the destination region holds
+          plaintext ‖ spare capacity; afterwards it holds ciphertext ‖ tag.  (The ladder reads every chunk of the input before it
+          writes the same chunk of the output, and never re-reads: `cryptoBlocksAsm_is_ladN` asks of the memory only that the input
+          stays readable beyond what has been written.)
+  `openAsm`: see Props/C07Asm.lean.
 -/
-import SMGo.Proofs.ISAValSealFinal
+import SMGo.Proofs.ISAValInPlaceSeal
 namespace SMGo.Props.C06AsmSeal
 open SMGo
 open SMGo.Model.ISAVal SMGo.Model.GCM SMGo.Spec.GCM
@@ -68,7 +73,8 @@ theorem wide_class_kernel (vl : Nat) (hvl : validVl vl = true) (s : State) (hG :
 
 /-- **`cryptoBlocksAsm`** (the length-class ladder with the fused GHASH), inside ANY routine `r` at ANY position `kL` / byte
     offset `b`: from its first instruction to its last label the destination receives the output bytes of `ladN`, Z21 its GHASH
-    value; `hf` = the hashFlag register (0 = no hashing) -/
+    value; `hf` = the hashFlag register (0 = no hashing).  The input need only be readable from the current offset on and stay so
+    beyond what has been written (`LadMem.adv`, `SrcFrom`): it may lie in the destination buffer itself (the in-place call) -/
 theorem cryptoBlocksAsm_is_ladN (r : Routine) (kL b : Nat) (sl : LadSlices r kL b) (lb : LadLabels r kL b)
     (M2 : List Nat → List Nat → List Region) (dbase dlen tp sp : Nat) (rk jb src : List Nat) (lm : LadMem M2 dbase dlen tp rk src sp)
     (hrk : rk.length = 32) (hrkb : ∀ x ∈ rk, x < 2 ^ 32) (hjb : jb.length = 16) (hjbb : ∀ x ∈ jb, x < 2 ^ 8) (hsb : ∀ x ∈ src, x < 2 ^ 8)
@@ -77,12 +83,12 @@ theorem cryptoBlocksAsm_is_ladN (r : Routine) (kL b : Nat) (sl : LadSlices r kL 
     (y : Nat) (dc tc : List Nat) (s : State) (pc : PCtx s) (gh : GhCtx h s) (rkp : greg s 15 = 73014444032)
     (g0 : greg s 0 = hf) (g9 : greg s 9 = src.length) (g10 : greg s 10 = sp) (g13 : greg s 13 = dbase) (g6 : greg s 6 = tp + toff)
     (v14 : vreg s 14 = unlanes 8 jb) (acc : vreg s 21 = y) (acclt : y < 2 ^ 128) (hm : s.mem = M2 dc tc) (hdc : dc.length = dlen)
-    (htc : tc.length = 32) :
+    (htc : tc.length = 32) (hs0 : ∀ t, t.length = 32 → SrcFrom (M2 dc t) sp src 0) :
     ∃ s' N, N ≤ 700 * (src.length / 256) + 4200 ∧ Reach r kL s (kL + 3770) s' N ∧
       ∀ fuel, src.length / 256 + 5 ≤ fuel → LadEnd M2 dlen h (ladN rk jb h hf fuel 0 y src).2
         (spliceAt dc 0 (ladN rk jb h hf fuel 0 y src).1) s s' :=
   ladder_reach r kL b sl lb M2 dbase dlen tp sp rk jb src lm hrk hrkb hjb hjbb hsb hsp hdb hsl htp toff h hf hhf hto y dc tc s pc gh rkp
-    g0 g9 g10 g13 g6 v14 acc acclt hm hdc htc
+    g0 g9 g10 g13 g6 v14 acc acclt hm hdc htc hs0
 
 /-- `ladN` (hashing on) is `cryptoBlocksAux` of the model — output bytes and GHASH value -/
 theorem ladN_is_cryptoBlocksAux (rk jb : List Nat) (hjb : jb.length = 16) (hjbb : ∀ x ∈ jb, x < 2 ^ 8) (hB : Bytes)
@@ -130,6 +136,47 @@ theorem sealAsm_eq_spec_nonce12 (g v k rk : List Nat) (t : Nat) (dst nonce pt aa
       = .ok ((sealGCM (encE rk) t (toB nonce) (toB pt) (toB aad)).map (·.toNat)) :=
   sealAsm_run12 g v k rk t dst nonce pt aad tmp hG hV hK hrk hrkb hn hnb hab hall hpb hpl ht hdl hdl32 htmp fuel hfuel
 
+/-- the pre-counter block as the listing computes it (`j0N`: nonce ‖ 0,0,0,1 for 12 bytes, else the bytes of
+    GHASH(nonce ‖ pad ‖ 0⁶⁴ ‖ [8·len]₆₄)) is `calculateJ0` of the model, for every nonce -/
+theorem j0_is_calculateJ0 (rk nonce : List Nat) (hnb : ∀ x ∈ nonce, x < 2 ^ 8) :
+    calculateJ0 (hPowers (encE rk (List.replicate 16 0))) (toB nonce) = blockToNat (toB (j0N rk nonce)) :=
+  j0N_model rk nonce hnb
+
+/-- `sealAsm`, instructions 0 … 1498, ANY nonce, ANY additional data (`AfterPre` with the pre-counter block `j0N`) -/
+theorem sealAsm_prefix (g v k rk : List Nat) (t : Nat) (dst nonce pt aad tmp : List Nat)
+    (hG : g.length = 16) (hV : v.length = 32) (hK : k.length = 8) (hrk : rk.length = 32) (hrkb : ∀ x ∈ rk, x < 2 ^ 32)
+    (hnl : nonce.length < 2 ^ 32) (hnb : ∀ x ∈ nonce, x < 2 ^ 8) (hab : ∀ x ∈ aad, x < 2 ^ 8) (hall : aad.length < 2 ^ 32)
+    (htmp : tmp.length = 32) :
+    ∃ s5 N, N ≤ 34 * (nonce.length / 16) + 34 * (aad.length / 16) + 1700 ∧ Reach sealR 0 (sealState g v k rk t dst nonce pt aad tmp) 1499 s5 N ∧
+      AfterPre (fun b => fmem "plaintext" false rk dst nonce pt aad b) rk nonce aad (j0N rk nonce)
+        81604378624 94489280512 90194313216 s5 ∧ s5.frame = (sealState g v k rk t dst nonce pt aad tmp).frame :=
+  seal_prefix_any g v k rk t dst nonce pt aad tmp hG hV hK hrk hrkb hnl hnb hab hall htmp
+
+/-- **`sealAsm` = Algorithm 4 of SP 800-38D (GCM-AE) over SM4, for EVERY nonce length** (the only bound on the nonce is the
+    region bound `< 2^32` of the entry state). -/
+theorem sealAsm_eq_spec (g v k rk : List Nat) (t : Nat) (dst nonce pt aad tmp : List Nat)
+    (hG : g.length = 16) (hV : v.length = 32) (hK : k.length = 8) (hrk : rk.length = 32) (hrkb : ∀ x ∈ rk, x < 2 ^ 32)
+    (hnl : nonce.length < 2 ^ 32) (hnb : ∀ x ∈ nonce, x < 2 ^ 8) (hab : ∀ x ∈ aad, x < 2 ^ 8) (hall : aad.length < 2 ^ 32)
+    (hpb : ∀ x ∈ pt, x < 2 ^ 8) (hpl : pt.length < 2 ^ 32) (ht : t ≤ 16) (hdl : dst.length = pt.length + t) (hdl32 : dst.length < 2 ^ 32)
+    (htmp : tmp.length = 32) (fuel : Nat)
+    (hfuel : 34 * (nonce.length / 16) + 34 * (aad.length / 16) + 700 * (pt.length / 256) + 6500 < fuel) :
+    runSeal fuel (sealState g v k rk t dst nonce pt aad tmp)
+      = .ok ((sealGCM (encE rk) t (toB nonce) (toB pt) (toB aad)).map (·.toNat)) :=
+  sealAsm_run g v k rk t dst nonce pt aad tmp hG hV hK hrk hrkb hnl hnb hab hall hpb hpl ht hdl hdl32 htmp fuel hfuel
+
+/-- **`sealAsm` called IN PLACE** (`dst` = the plaintext's own array, as `Seal(buf[:0], nonce, buf, aad)` passes it) **= Algorithm 4
+    of SP 800-38D over SM4, for every nonce length**: `pt` = the plaintext, `tl` = the old contents of the `t` bytes of capacity
+    behind it; the array holds ciphertext ‖ tag afterwards. -/
+theorem sealAsm_inplace_eq_spec (g v k rk : List Nat) (t : Nat) (pt tl nonce ur aad tmp : List Nat)
+    (hG : g.length = 16) (hV : v.length = 32) (hK : k.length = 8) (hrk : rk.length = 32) (hrkb : ∀ x ∈ rk, x < 2 ^ 32)
+    (hnl : nonce.length < 2 ^ 32) (hnb : ∀ x ∈ nonce, x < 2 ^ 8) (hab : ∀ x ∈ aad, x < 2 ^ 8) (hall : aad.length < 2 ^ 32)
+    (hpb : ∀ x ∈ pt, x < 2 ^ 8) (ht : t ≤ 16) (htl : tl.length = t) (hdl32 : pt.length + t < 2 ^ 32)
+    (htmp : tmp.length = 32) (hur : ur.length < 2 ^ 32) (fuel : Nat)
+    (hfuel : 34 * (nonce.length / 16) + 34 * (aad.length / 16) + 700 * (pt.length / 256) + 6500 < fuel) :
+    runSeal fuel (sealStateInPlace g v k rk t pt tl nonce ur aad tmp)
+      = .ok ((sealGCM (encE rk) t (toB nonce) (toB pt) (toB aad)).map (·.toNat)) :=
+  sealAsm_inplace_run g v k rk t pt tl nonce ur aad tmp hG hV hK hrk hrkb hnl hnb hab hall hpb ht htl hdl32 htmp hur fuel hfuel
+
 end SMGo.Props.C06AsmSeal
 
 #print axioms SMGo.Props.C06AsmSeal.sealAsm_decodes
@@ -142,3 +189,7 @@ end SMGo.Props.C06AsmSeal
 #print axioms SMGo.Props.C06AsmSeal.tag_is_finishTag
 #print axioms SMGo.Props.C06AsmSeal.sealAsm_prefix_nonce12
 #print axioms SMGo.Props.C06AsmSeal.sealAsm_eq_spec_nonce12
+#print axioms SMGo.Props.C06AsmSeal.j0_is_calculateJ0
+#print axioms SMGo.Props.C06AsmSeal.sealAsm_prefix
+#print axioms SMGo.Props.C06AsmSeal.sealAsm_eq_spec
+#print axioms SMGo.Props.C06AsmSeal.sealAsm_inplace_eq_spec
